@@ -904,8 +904,10 @@ class InlinedExpressionGenMapper(
         assert is_symbolic_index(rec_index)
         res = local_ctx.lookup(expr.aggregate.name).to_loopy_expression(
             rec_index, prstnt_ctx)
-        assert prim.is_arithmetic_expression(res)
-        return res
+        # an inlined boolean constant (e.g. pt.full(shape, True)) is fine, too
+        assert (prim.is_arithmetic_expression(res)
+                or isinstance(res, bool | np.bool_))
+        return res  # pyright: ignore[reportReturnType]
 
     def map_variable(self, expr: prim.Variable,
                      prstnt_ctx: PersistentExpressionContext,
@@ -923,7 +925,8 @@ class InlinedExpressionGenMapper(
             return expr
         else:
             res = local_ctx.lookup(expr.name).to_loopy_expression((), prstnt_ctx)
-            assert prim.is_arithmetic_expression(res)
+            assert (prim.is_arithmetic_expression(res)
+                    or isinstance(res, bool | np.bool_))
             return res
 
     def map_call(self, expr: prim.Call,
